@@ -465,6 +465,11 @@ func checkC15(c *Ctx) {
 		c.reachRule(p, "C15.expander", "a 255-byte DST is used verbatim (not hashed)", f, nil, nil, dstIs(255), "expander.mustWrite", false)
 		c.reachRule(p, "C15.expander", "a 256-byte DST is hashed (oversize rule)", f, nil, nil, dstIs(256), "expander.mustWrite", true)
 	}
+	// the sponges fill the whole buffer they are given and say so: a short count with a nil error makes
+	// io.ReadFull callers (the XOF-based expander) read the "missing" tail again from further down the stream
+	for _, t := range [][2]string{{"internal/sha3", "State"}} { // (KangarooTwelve forwards to it)
+		c.returnRule(p, "C15.read", "Read reports the full length of the buffer it filled", p.Func(t[0], t[1], "Read"), 0, `len\(param#1\)`)
+	}
 	// RFC 9380, 5.3.1 / 5.3.2: abort if len_in_bytes > 65535 (its two-byte encoding would wrap and the request
 	// would collide with a shorter one); nothing may be hashed for such a request
 	for _, typ := range []string{"expanderMD", "expanderXOF"} {
